@@ -882,10 +882,33 @@ def removal_reports_change(P, R, rule='C15.MPT.4'):
         for t in rv.sites():
             if t.ev['k'] == 'ret' and (t.bid in rv.reach([s.bid])) and (t.bid != s.bid or t.idx > s.idx):
                 rets.append(t)
+        # single-exit form: `removed = 1; ... return removed;` - what the local is known to hold at the return, on the paths
+        # that passed the removal
+        def on_event(st, u, s=s):
+            passed, consts = st
+            if u.key == s.key:
+                return (True, consts)
+            ev = u.ev
+            if ev['k'] == 'store' and is_var(ev.get('lhs')) and ev['lhs'].get('sc') == 'local':
+                d = dict(consts)
+                d.pop(ev['lhs']['name'], None)
+                if ev.get('op') == '=' and isinstance(const_of(ev.get('rhs')), int):
+                    d[ev['lhs']['name']] = const_of(ev['rhs'])
+                return (passed, tuple(sorted(d.items())))
+            if ev['k'] == 'decl' and ev.get('var') and isinstance(const_of(ev.get('init')), int):
+                d = dict(consts)
+                d[ev['var']] = const_of(ev['init'])
+                return (passed, tuple(sorted(d.items())))
+            return st
+        bf, _, _, _ = rv.forward((False, ()), on_event, None)
         for t in rets:
             n += 1
             v = rv.expand_local(t.ev.get('val'), t) if isinstance(t.ev.get('val'), dict) else t.ev.get('val')
             c = const_of(v)
+            if c is None and is_var(t.ev.get('val')):
+                vals = {dict(cs).get(t.ev['val']['name']) for (ps, cs) in bf.get(t.key, set()) if ps}
+                if vals and None not in vals and all(isinstance(x, int) and x != 0 for x in vals):
+                    c = sorted(vals)[0]
             viacall = isinstance(t.ev.get('val'), dict) and t.ev['val'].get('k') == 'callref'
             R.ob(rule, isinstance(c, int) and c != 0, t, 'after dropping the node from its parent the merge reports a change by returning a non-zero constant (returns %s)' % sx(t.ev.get('val')), key='removal-return')
     R.floor(rule, 2, 'type-change replacement and leftover removal')
